@@ -13,3 +13,12 @@ func ZZCallVM(c *EVMCtrler, from, to types.Address, data []byte, height, blockTi
 	}
 	return r.Failed(), nil
 }
+
+// ZZCallVMData is ZZCallVM returning the call's return data as well.
+func ZZCallVMData(c *EVMCtrler, from, to types.Address, data []byte, height, blockTime int64) (ret []byte, failed bool, err error) {
+	r, xerr := c.callVM(from, to, data, height, blockTime)
+	if xerr != nil {
+		return nil, true, xerr
+	}
+	return r.ReturnData, r.Failed(), nil
+}
